@@ -2,6 +2,7 @@ import Driver.Common
 import Driver.FeeMarket
 import Driver.StateDB
 import Driver.Block
+import Driver.Ante
 
 def main (args : List String) : IO UInt32 := do
   let stdin ← IO.getStdin
@@ -10,4 +11,5 @@ def main (args : List String) : IO UInt32 := do
   | ["feemarket"] => Driver.loop stdin stdout Driver.FeeMarket.step (); return 0
   | ["block"] => Driver.loop stdin stdout Driver.Block.step Driver.Block.emptyState; return 0
   | ["statedb"] => Driver.loop stdin stdout Driver.StateDB.step Driver.StateDB.init; return 0
+  | ["ante"] => Driver.loop stdin stdout Driver.Ante.step (); return 0
   | _ => IO.eprintln "usage: driver <engine>"; return 2
